@@ -254,8 +254,23 @@ class _Inliner(object):
             tg = target_stmt.targets
             if len(rets) == 1 and body and body[-1] is rets[0] and \
                     rets[0].value is not None:
-                new = binds + body[:-1] + [ast.Assign(
-                    targets=copy.deepcopy(tg), value=rets[0].value)]
+                rv = rets[0].value
+                tname = tg[0].id if len(tg) == 1 and isinstance(
+                    tg[0], ast.Name) else None
+                used = {n.id for st in binds + body[:-1]
+                        for n in ast.walk(st) if isinstance(n, ast.Name)}
+                if tname is not None and isinstance(rv, ast.Name) and \
+                        rv.id in renames.values() and \
+                        rv.id.rpartition('__l')[0] == tname and \
+                        tname not in used:
+                    # ``T = helper(...)`` whose helper builds its result in a
+                    # local called T as well: the local is the caller's T
+                    holder = ast.Module(body=body[:-1], type_ignores=[])
+                    _RenameNames({rv.id: tname}).visit(holder)
+                    new = binds + holder.body
+                else:
+                    new = binds + body[:-1] + [ast.Assign(
+                        targets=copy.deepcopy(tg), value=rv)]
             else:
                 new = binds + _aslist(self.once(body, tg))
         self.count += 1
